@@ -71,7 +71,8 @@ def r1(k: Kit) -> None:
     space = {'pkttype': ptypes, 'kex_complete': [True, False],
              'auth_prog': [True, False], 'auth_complete': [True, False],
              'bytes_due': [False, True], 'time_due': [False, True],
-             'rekey_seconds': [0, 3600]}
+             'rekey_seconds': [0, 3600], 'encrypted': [True, False],
+             'nested': [False, True]}
     rows: Dict[str, int] = {}
     bad: Dict[str, str] = {}
     n = 0
@@ -86,8 +87,17 @@ def r1(k: Kit) -> None:
             if name == 'self._send_kexinit':
                 env['self._kex_complete'] = False
                 return None
+            if name == 'self.send_packet':
+                # the IGNORE inserted in front of the packet: its own
+                # limit check may come out differently (time moved on)
+                if s['nested'] and s['auth_complete'] and \
+                        env.get('self._kex_complete', s['kex_complete']):
+                    env['self._kex_complete'] = False
+                return None
             return Obj('x')
         val = {'self._kex_complete': s['kex_complete'],
+               'self._send_encryption':
+                   Obj('ENC') if s['encrypted'] else None,
                'self._auth_in_progress': s['auth_prog'],
                'self._auth_complete': s['auth_complete'],
                'self._rekey_bytes_sent': 200 if s['bytes_due'] else 0,
@@ -110,6 +120,8 @@ def r1(k: Kit) -> None:
         due = s['auth_complete'] and s['kex_complete'] and \
             (s['bytes_due'] or s['time_due'])
         kc = s['kex_complete'] and not due
+        nest = s['nested'] and s['encrypted'] and s['auth_complete'] and kc
+        kcn = kc and not (nest and p > 49)
 
         def row(name, cond, req, why):
             if cond:
@@ -123,16 +135,21 @@ def r1(k: Kit) -> None:
         row('during kex only transport/kex messages', not kc,
             emitted == (p <= 49 and p not in (4, 5, 6)),
             'wrong emit/queue decision while an exchange is in progress')
-        row('banner only during/after auth', kc and p == 53,
+        row('banner only during/after auth', kcn and p == 53,
             emitted == (s['auth_prog'] or s['auth_complete']),
             'banner gate wrong')
-        row('connection layer only after auth', kc and p > 79,
+        row('connection layer only after auth', kcn and p > 79,
             emitted == s['auth_complete'], 'post-auth gate wrong')
-        row('no gate otherwise', kc and p <= 79 and p != 53, emitted,
+        row('no gate otherwise', kcn and p <= 79 and p != 53, emitted,
             'a transport/auth message is queued for no reason')
         row('re-key trigger', True, bool(kexinit) == due and
             len(kexinit) <= 1, 'KEXINIT not sent exactly when a re-key is '
             'due (requires auth ∧ kex complete)')
+        inner = [a for nm, a in o.calls if nm == 'self.send_packet']
+        row('a re-key started by the inserted IGNORE queues the packet',
+            bool(inner) and s['nested'] and s['auth_complete'] and kc,
+            deferred, 'the IGNORE in front of the packet started a key '
+            'exchange but the packet itself is still emitted')
         row('triggering packet queued behind KEXINIT', due and p > 49,
             deferred, 'the packet that triggered the re-key is emitted '
             'before the exchange completes')
@@ -529,6 +546,43 @@ def r8(k: Kit) -> None:
     rep.floor('C11.R8', 'byte counter charge', n, 1)
 
 
+def r9(k: Kit) -> None:
+    """The IGNORE inserted in front of a packet may itself start a re-key."""
+    rep = k.rep
+    rep.rule('C11.R9', 'send_packet: between its recursive call (the '
+             'MSG_IGNORE inserted in front of every encrypted packet, which '
+             're-evaluates the byte / time limits and may send KEXINIT) and '
+             'the emission of the original packet, _kex_complete is tested '
+             'again: a time limit that expires between the two evaluations '
+             'must not let a connection-layer packet out between our KEXINIT '
+             'and NEWKEYS')
+    fi = k.func(CONN + 'send_packet')
+    g = k.cfg(fi)
+    rec = [n for n, c in k.calls_named(fi, 'send_packet', 'self')]
+    out = [n for n, c in k.calls_named(fi, '_send', 'self')]
+    rep.floor('C11.R9', 'recursive send_packet sites', len(rec), 1)
+    rep.floor('C11.R9', 'emission sites', len(out), 1)
+    tests = [a.id for a in g.nodes if a.kind == 'atom' and a.ast is not None
+             and 'self._kex_complete' in {dotted(x) for x in ast.walk(a.ast)
+                                          if isinstance(x, ast.Attribute)}]
+    for r in rec:
+        for o in out:
+            w = g.guarded_by(o.id, atom_truthy_of('self._kex_complete'),
+                             start=r.id)
+            rep.check(w is None, 'C11.R9',
+                      key(fi, 'gate re-evaluated after the inserted IGNORE'),
+                      'every path from the recursive call to _send() takes '
+                      'the _kex_complete-is-true edge of a test',
+                      'after send_packet(MSG_IGNORE) returns, the original '
+                      'packet is emitted without looking at _kex_complete '
+                      'again: if rekey_seconds expired between the outer and '
+                      'the inner limit check, the inner call has just sent '
+                      'KEXINIT and the outer CHANNEL_DATA follows it onto '
+                      'the wire (packet types 20, 2, 94, 30, 21) - a strict '
+                      'peer ends the session', k.loc(fi, r),
+                      g.describe_path(w) if w else None)
+
+
 def run(idx, rep, tier):
     k = Kit(idx, rep)
     rep.assumptions += NOT_DECIDED
@@ -541,6 +595,7 @@ def run(idx, rep, tier):
     r4(k)
     r7(k)
     r8(k)
+    r9(k)
     # R5: the keys taken into use after a re-exchange are the RFC 4253 §7.2
     # keys: = C02.R2 (compute_key hashes K, H, letter, session id in that
     # order; on the first exchange H == session id hides a swap)
